@@ -102,6 +102,9 @@ class Impl:
     def __init__(self):
         logging.disable(logging.CRITICAL)
         from qtoggleserver.conf import settings
+        settings.persist.driver = 'qtoggleserver.drivers.persist.JSONDriver'   # in memory: put_ports / put_slave_devices reset ports
+        settings.persist.file_path = None
+        from qtoggleserver.core import expressions  # noqa: F401  (import order: prevents partial import errors)
         from qtoggleserver.core import events as core_events
         from qtoggleserver.core import sessions
         from qtoggleserver.core.api.funcs import various
@@ -109,6 +112,11 @@ class Impl:
         from qtoggleserver.slaves import events as ev_slaves
         self.settings, self.core_events, self.sessions, self.various, self.handlers = (
             settings, core_events, sessions, various, handlers)
+        from qtoggleserver.core import api as core_api
+        from qtoggleserver.core.api.funcs import ports as ports_funcs
+        from qtoggleserver.slaves.api.funcs import devices as devices_funcs
+        self.APIError = core_api.APIError
+        self.restore = {'P': ports_funcs.put_ports, 'S': devices_funcs.put_slave_devices}
         self.modules = {m.__name__: m for m in (ev_base, ev_port, ev_device, ev_slaves)}
         self.Event = ev_base.Event
         self.PortEvent = ev_port.PortEvent
@@ -202,6 +210,35 @@ class FakeHandler:
 
     def decode_argument(self, v, name=None):
         return v.decode()
+
+
+# bodies for PUT /ports and PUT /slave_devices: accepted ones and ones with a malformed entry (rejected with 400 inside the
+# restore, i.e. after event handling was switched off)
+RESTORE_PARAMS = {
+    'P': {'ok': [], 'ok2': [{'id': 'no-such-port', 'display_name': 'x'}],
+          'bad': [{'id': 'no-such-port'}, {'id': 'vport1', 'virtual': True, 'type': 'text'}]},
+    'S': {'ok': [], 'ok2': [], 'bad': [{'scheme': 'http'}]},
+}
+FULL_UPDATE = {'cls': 5}     # index of the full-update class in the table (set by _prepare)
+
+
+def expand(trace):
+    """trace items -> (Coq events, position of (the last event of) every item).  A restore call is, for the sessions,
+    Disable ; Enable [; Trigger full-update]"""
+    evs, pos = [], []
+    for st in trace:
+        if st[0] == 'D':
+            evs.append('Disable')
+        elif st[0] == 'E':
+            evs.append('Enable')
+        elif st[0] in ('P', 'S'):
+            evs += ['Disable', 'Enable']
+            if st[1].startswith('ok'):
+                evs.append('T %s 0' % coq.z(FULL_UPDATE['cls']))
+        else:
+            evs.append(coq_event(st))
+        pos.append(len(evs) - 1)
+    return evs, pos
 
 
 def sid_str(sid):
@@ -373,6 +410,28 @@ async def drive(impl, cap, trace, info=None, hcfg='none'):
                 sessions.update()
                 if len(sessions._sessions_by_id) < n0:
                     stats['expired'] = stats.get('expired', 0) + 1
+            elif st[0] == 'D':
+                impl.core_events.disable()
+            elif st[0] == 'E':
+                impl.core_events.enable()
+            elif st[0] in ('P', 'S'):
+                # the real backup-restore API functions: they switch event handling off, must switch it on again whether
+                # they succeed or fail, and trigger a full-update when they succeed
+                params = copy.deepcopy(RESTORE_PARAMS[st[0]][st[1]])
+                try:
+                    await impl.restore[st[0]](FakeHandler(30, 'restore', 60), params)
+                    went = 'ok'
+                except impl.APIError:
+                    went = 'bad'
+                if went != ('ok' if st[1].startswith('ok') else 'bad'):
+                    problems.append('step %d: %s %s %s' % (i, st[0], st[1], 'failed' if went == 'bad' else 'did not fail'))
+                stats['restore'] = stats.get('restore', 0) + 1
+                # event objects created inside the call (the full-update) are named after this step
+                for s in sessions._sessions_by_id.values():
+                    for o in s.queue:
+                        if id(o) not in ev_id:
+                            ev_id[id(o)] = i
+                            keep.append(o)
             else:
                 raise ValueError('bad trace item %r' % (st,))
             for _ in range(3):
@@ -444,12 +503,17 @@ def coq_event(st):
 
 
 def coq_case(cap, trace, outs, final):
+    evs, pos = expand(trace)
+
+    def at(i):
+        return pos[i] if 0 <= i < len(pos) else 10 ** 6
     return 'C %s %s %s %s' % (
         coq.z(cap),
-        coq.lst(trace, coq_event),
-        coq.lst(outs, lambda o: 'O %s %s %s' % (coq.z(o[0]), coq.z(o[1]), coq.zlist(o[2]))),
+        coq.lst(evs),
+        coq.lst(outs, lambda o: 'O %s %s %s' % (coq.z(at(o[0])), coq.z(at(o[1])), coq.zlist([at(x) for x in o[2]]))),
         coq.lst(final, lambda s: 'S %s %s %s %s %s %s' % (
-            coq.z(s[0]), coq.zlist(s[1]), coq.z(s[2]), coq.option(s[3], coq.z), coq.z(s[4]), coq.z(s[5]))),
+            coq.z(s[0]), coq.zlist([at(x) for x in s[1]]), coq.z(s[2]), coq.option(None if s[3] is None else at(s[3]), coq.z),
+            coq.z(s[4]), coq.z(s[5]))),
     )
 
 
@@ -481,7 +545,7 @@ def evaluate(ctx, rows, cases, name, want_model=True):
         shards.append(coq_table(rows) + 'Definition cases : list case := [\n  %s].\n' % ';\n  '.join(
             coq_case(*c) for c in chunk))
         spans.append((i, len(chunk)))
-    res = coq.eval_shards(ctx.workdir, name, header, shards, evals)
+    res = coq.eval_shards(ctx.workdir, name, header, shards, evals, jobs=2)
     bad_model = set() if have_model else None
     kinds = [0] * len(cases)
     errors = []
@@ -520,10 +584,18 @@ def gen_trace(rng, ncls, weights, max_len=50):
     p_trigger = rng.choice([0.4, 0.55, 0.7])
     p_listen = rng.choice([0.5, 0.65, 0.8])
     nobj = rng.randint(1, 3)
+    admin = rng.random() < 0.5        # other requests switch event handling off and on / restore backups in this history
     trace = []
     for _ in range(n):
         r = rng.random()
-        if r < p_trigger:
+        a = rng.random() if admin else 1.0
+        if a < 0.03:
+            trace.append(['D'])
+        elif a < 0.08:
+            trace.append(['E'])
+        elif a < 0.14:
+            trace.append([rng.choice('PPS'), rng.choice(['ok', 'ok2', 'bad', 'bad'])])
+        elif r < p_trigger:
             trace.append(['T', rng.choices(range(ncls), weights)[0], rng.randrange(nobj)])
         elif r < p_trigger + (1 - p_trigger) * p_listen:
             if rng.random() < 0.3:
@@ -588,8 +660,13 @@ def describe(rows, trace):
             parts.append('%d:Trigger(%s,obj%d)' % (i, rows[st[1]]['type'], st[2]))
         elif st[0] == 'L':
             parts.append('%d:Listen(sid=%d,level=%d,timeout=%d,now=%d%s)' % (i, st[1], st[2], st[3], st[4], ',api' if st[5] else ''))
-        else:
+        elif st[0] == 'K':
             parts.append('%d:Tick(now=%d)' % (i, st[1]))
+        elif st[0] in ('D', 'E'):
+            parts.append('%d:%s' % (i, 'core_events.disable()' if st[0] == 'D' else 'core_events.enable()'))
+        else:
+            parts.append('%d:%s(%s)%s' % (i, 'put_ports' if st[0] == 'P' else 'put_slave_devices',
+                                          json.dumps(RESTORE_PARAMS[st[0]][st[1]]), '' if st[1].startswith('ok') else '->400'))
     return ' ; '.join(parts)
 
 
@@ -709,7 +786,10 @@ def run_cases(ctx, res, cases, label, rows, report_limit=3):
         dist['handlers:%s' % hcfg] = dist.get('handlers:%s' % hcfg, 0) + 1
         dist['events'] = dist.get('events', 0) + len(trace)
         for st in trace:
-            k = {'T': 'op:trigger', 'L': 'op:listen', 'K': 'op:tick'}[st[0]]
+            k = {'T': 'op:trigger', 'L': 'op:listen', 'K': 'op:tick', 'D': 'op:disable', 'E': 'op:enable',
+                 'P': 'op:put_ports', 'S': 'op:put_slave_devices'}[st[0]]
+            if st[0] in 'PS':
+                k += ':' + ('ok' if st[1].startswith('ok') else 'fails')
             dist[k] = dist.get(k, 0) + 1
             if st[0] == 'L' and st[5]:
                 dist['listen_via_get_listen'] = dist.get('listen_via_get_listen', 0) + 1
@@ -788,6 +868,11 @@ def run_cases(ctx, res, cases, label, rows, report_limit=3):
 def _prepare(ctx, res):
     impl = Impl.get()
     rows = impl.runtime_table()
+    fu = [i for i, r in enumerate(rows) if r['type'] == 'full-update']
+    if len(fu) == 1:
+        FULL_UPDATE['cls'] = fu[0]
+    else:
+        res['tie_failures'].append('no full-update class in the event table: restore calls cannot be modelled')
     return impl, rows
 
 
@@ -798,7 +883,10 @@ def check(ctx, res):
         'through the API function get_listen), Tick with clock steps 0..601 s (3% backwards); event_queue_size 4 in 55% of '
         'the traces, else 1/2/3/8/1024; every trace runs under one of 8 configurations of *other* event handlers (none / healthy / '
         'raising or slow, synchronous or fire-and-forget, configured before the sessions handler through settings.event_handlers + '
-        'core.events.init() as at start-up, or registered after it) - the expected answers do not depend on it. '
+        'core.events.init() as at start-up, or registered after it) - the expected answers do not depend on it; in half of the '
+        'traces other requests interleave: core_events.disable() / enable() (3% / 5% of the steps) and the real API functions '
+        'put_ports / put_slave_devices with accepted and with malformed bodies (6%; for the sessions: disable, enable, and a '
+        'full-update when accepted). '
         'distinct = distinct (cap, trace); non-trivial = at least one non-empty answer and two listens on the same session id'
     )
     impl, rows = _prepare(ctx, res)
